@@ -114,7 +114,7 @@ Notation ov := (VPtr rp po).
 
 (* ================================================================== releasing a slice whose property arrays exist: values, the property arrays read so far
    (the rest of the array is still null), the names read so far, the two arrays, the struct *)
-Lemma destroy_gen (h : heap) v blkV newbV m2 m' pu ps nu ns hs pn blocks j kk sxx :
+Lemma destroy_gen (h : heap) v blkV newbV m2 m' pu ps nu ns hs pn blocks j (x : heap) kk sxx :
   let L := List.length h in
   let nV := List.length newbV in
   let PB := (L + 2 + nV)%nat in
@@ -124,17 +124,17 @@ Lemma destroy_gen (h : heap) v blkV newbV m2 m' pu ps nu ns hs pn blocks j kk sx
   0 <= v < int_max -> zlen pu = v -> zlen nu = v -> pu = hs ++ pn -> Forall (fun c => as_ptr c = VNull) pn ->
   vas m' (S NB) hs blocks -> ImpFactsRelease.elem_ptrs m' nu ->
   bsE prog_env (fbody prog_sbdf_cs_destroy)
-    (fr [("cs"%string, VCell L 0); ("i"%string, VUndef)] bv kk sxx (h ++ Some slice :: (Some blkV :: newbV) ++ [Some (pu ++ ps); Some (nu ++ ns)] ++ blocks ++ nones j) m' o)
-    (OReturn (VInt 0) (fr [("cs"%string, VCell L 0); ("i"%string, VUndef)] bv kk sxx (h ++ nones (S (S nV) + 2 + List.length blocks + j)) m' o)).
+    (fr [("cs"%string, VCell L 0); ("i"%string, VUndef)] bv kk sxx (h ++ Some slice :: (Some blkV :: newbV) ++ [Some (pu ++ ps); Some (nu ++ ns)] ++ blocks ++ nones j ++ x) m' o)
+    (OReturn (VInt 0) (fr [("cs"%string, VCell L 0); ("i"%string, VUndef)] bv kk sxx (h ++ nones (S (S nV) + 2 + List.length blocks + j) ++ x) m' o)).
 Proof.
   intros L nV PB NB slice VR Hm Hv Hpu Hnu Hsplit Hpn V Hel.
-  set (T := blocks ++ nones j).
+  set (T := blocks ++ nones j ++ x).
   set (hpY := h ++ [Some slice]).
   assert (HpY : List.length hpY = S L) by (unfold hpY; rewrite app_length; cbn; lia).
   set (H0 := h ++ Some slice :: (Some blkV :: newbV) ++ [Some (pu ++ ps); Some (nu ++ ns)] ++ T).
   set (VALD := None :: nones nV).
   set (h1 := h ++ Some slice :: VALD ++ [Some (pu ++ ps); Some (nu ++ ns)] ++ T).
-  set (T2 := nones (List.length blocks) ++ nones j).
+  set (T2 := nones (List.length blocks) ++ nones j ++ x).
   set (h2 := h ++ Some slice :: VALD ++ [Some (pu ++ ps); Some (nu ++ ns)] ++ T2).
   set (slice0 := [VCell (S L) 0; VInt v; VCell NB 0; VCell PB 0; VInt 0]).
   set (h3 := h ++ Some slice0 :: VALD ++ [Some (pu ++ ps); Some (nu ++ ns)] ++ T2).
@@ -146,12 +146,13 @@ Proof.
   assert (SEG2 : forall (s0 : list val) (val t : heap) x y, h ++ Some s0 :: val ++ [x; y] ++ t = ((h ++ Some s0 :: val) ++ [x]) ++ y :: t) by (intros; rewrite <- !app_assoc; reflexivity).
   assert (LVV : List.length (Some blkV :: newbV) = S nV) by reflexivity.
   pose proof (cs_destroy_owned_bs bv kk sxx m' o H0 L (VCell (S L) 0) v (VCell NB 0) (VCell PB 0) 1 PB (pu ++ ps) pu ps h1 h2 h3 NB (nu ++ ns) nu VUndef) as D.
-  assert (R : kill L (kill PB (kill NB h3)) = h ++ nones (S (S nV) + 2 + List.length blocks + j)).
+  assert (R : kill L (kill PB (kill NB h3)) = h ++ nones (S (S nV) + 2 + List.length blocks + j) ++ x).
   { unfold h3. rewrite (SEG2 slice0 VALD T2). rewrite (kill_at _ _ _ NB (NBa slice0 VALD _ LV)). rewrite <- app_assoc. cbn [app].
     rewrite (kill_at _ _ _ PB (PBa slice0 VALD [] LV)). rewrite <- app_assoc. cbn [app]. rewrite (kill_at h _ _ L eq_refl).
     f_equal. unfold VALD, T2. cbn [app].
-    change (None :: None :: nones nV ++ None :: None :: nones (List.length blocks) ++ nones j) with (nones (S (S nV)) ++ nones 2 ++ nones (List.length blocks) ++ nones j).
-    rewrite !nones_app. f_equal. lia. }
+    change (None :: None :: nones nV ++ None :: None :: nones (List.length blocks) ++ nones j ++ x) with (nones (S (S nV)) ++ nones 2 ++ nones (List.length blocks) ++ nones j ++ x).
+    replace (nones (S (S nV) + 2 + List.length blocks + j)) with (nones (S (S nV)) ++ nones 2 ++ nones (List.length blocks) ++ nones j) by (rewrite !nones_app; f_equal; lia).
+    rewrite <- !app_assoc. reflexivity. }
   rewrite R in D. apply D; clear D R.
   - discriminate.
   - unfold cs_block, H0. apply (nth_at' h _ _ L eq_refl).
@@ -169,13 +170,13 @@ Proof.
   - (* the property arrays, one after the other *)
     rewrite Hsplit. eapply va_destroys_list_app.
     + unfold h1. rewrite (SEG slice VALD T). unfold T.
-      replace ((h ++ Some slice :: VALD) ++ Some (pu ++ ps) :: Some (nu ++ ns) :: blocks ++ nones j)
-        with (((h ++ Some slice :: VALD) ++ [Some (pu ++ ps); Some (nu ++ ns)]) ++ blocks ++ nones j) by (rewrite <- !app_assoc; reflexivity).
-      apply (vas_destroys m' (S NB) hs blocks V _ (nones j) [L; PB] m').
+      replace ((h ++ Some slice :: VALD) ++ Some (pu ++ ps) :: Some (nu ++ ns) :: blocks ++ nones j ++ x)
+        with (((h ++ Some slice :: VALD) ++ [Some (pu ++ ps); Some (nu ++ ns)]) ++ blocks ++ nones j ++ x) by (rewrite <- !app_assoc; reflexivity).
+      apply (vas_destroys m' (S NB) hs blocks V _ (nones j ++ x) [L; PB] m').
       * rewrite !app_length. cbn [List.length]. rewrite LV. unfold NB, PB, L. lia.
       * lia.
       * intros c [<-|[<-|[]]]; unfold NB, PB; lia.
-    + replace (((h ++ Some slice :: VALD) ++ [Some (pu ++ ps); Some (nu ++ ns)]) ++ nones (List.length blocks) ++ nones j) with h2 by (unfold h2, T2; rewrite <- !app_assoc; reflexivity).
+    + replace (((h ++ Some slice :: VALD) ++ [Some (pu ++ ps); Some (nu ++ ns)]) ++ nones (List.length blocks) ++ nones j ++ x) with h2 by (unfold h2, T2; rewrite <- !app_assoc; reflexivity).
       apply va_destroys_list_nulls. exact Hpn.
   - unfold h2, h3. apply (cell_set_at h slice _ L 4 (VInt 0) slice0 eq_refl); [lia|reflexivity].
   - unfold cs_block, h3. rewrite Hnu. apply (nth_at' h _ _ L eq_refl).
@@ -605,10 +606,22 @@ Proof.
       eapply bsE_seq_assoc3; [exact MS2|]. eapply bsE_seq; [exact BL|].
       unl. eapply bsE_if; [evl; reflexivity|reflexivity|apply bsE_break]. }
   assert (Hmm' : zlen m2 <= zlen m') by (destruct Pf as (x & ->); rewrite zlen_app; pose proof (zlen_nonneg x); lia).
+  set (HNEW := Some slv :: Some blkV :: newbV ++ Some (pu ++ ps) :: Some (nu ++ ns) :: blocks' ++ nones j).
+  assert (DGx : cs_sem bv o m' L HNEW).
+  { intros pre x m3 kk sxx Hpre Hm3.
+    assert (V3 : vas m3 BASE hs' blocks') by (apply (vas_mono m' m3 Hm3); exact R5).
+    assert (E3 : ImpFactsRelease.elem_ptrs m3 nu).
+    { unfold ImpFactsRelease.elem_ptrs in *. eapply Forall_impl; [|exact R6]. cbv beta. intros cc [N|(p & -> & Hp)]; [left; exact N|right; exists p; split; [reflexivity|lia]]. }
+    pose proof (destroy_gen pre v blkV newbV m2 m3 pu ps nu ns hs' pn blocks' j x kk sxx) as D. rewrite !Hpre in D.
+    specialize (D VRV ltac:(lia) ltac:(unfold int_max; lia) R1 R2 R3 R4 V3 E3).
+    unfold HNEW. cbn [app List.length] in D |- *. rewrite <- !app_assoc. cbn [app].
+    replace (List.length (newbV ++ Some (pu ++ ps) :: Some (nu ++ ns) :: blocks' ++ nones j)) with (nV + 2 + List.length blocks' + j)%nat
+      by (rewrite app_length; cbn [List.length]; rewrite app_length, nones_length; lia).
+    rewrite <- (app_assoc blocks'). replace (S (S (nV + 2 + List.length blocks' + j))) with (S (S nV) + 2 + List.length blocks' + j)%nat by lia. exact D. }
   assert (DG : forall kk sxx, bsE prog_env (fbody prog_sbdf_cs_destroy)
                  (fr [("cs"%string, VCell L 0); ("i"%string, VUndef)] bv kk sxx (HP slv (pu ++ ps) (nu ++ ns) (blocks' ++ nones j)) m' o)
-                 (OReturn (VInt 0) (fr [("cs"%string, VCell L 0); ("i"%string, VUndef)] bv kk sxx (h ++ nones (S (S nV) + 2 + List.length blocks' + j)) m' o))).
-  { intros kk sxx. exact (destroy_gen h v blkV newbV m2 m' pu ps nu ns hs' pn blocks' j kk sxx VRV Hmm' ltac:(unfold int_max; lia) R1 R2 R3 R4 R5 R6). }
+                 (OReturn (VInt 0) (fr [("cs"%string, VCell L 0); ("i"%string, VUndef)] bv kk sxx (h ++ nones (List.length HNEW)) m' o))).
+  { intros kk sxx. pose proof (DGx h [] m' kk sxx eq_refl ltac:(lia)) as D. rewrite !app_nil_r in D. exact D. }
   destruct R7 as [(-> & -> & -> & PE)|(-> & Hneg)].
   - (* every property was read: the slice is handed out *)
     exists SBDF_OK. eexists (Build_crl _ _ _ _ _ _ _ _ _ _). do 4 eexists. split; [|split; [exact Pf|left]].
@@ -616,11 +629,7 @@ Proof.
       eapply bsE_seq; [eapply bsE_if; [evl; reflexivity|reflexivity|]; eapply bsE_expr; evl; reflexivity|].
       eapply bsE_return. evl. reflexivity.
     + split; [reflexivity|]. split; [reflexivity|]. split; [|exact PE].
-      exists (Some slv :: Some blkV :: newbV ++ Some (pu ++ ps) :: Some (nu ++ ns) :: blocks' ++ nones 0). split; [reflexivity|]. split; [cbn [List.length]; lia|].
-      intros kk sxx. specialize (DG kk sxx).
-      replace (List.length (Some slv :: Some blkV :: newbV ++ Some (pu ++ ps) :: Some (nu ++ ns) :: blocks' ++ nones 0)) with (S (S nV) + 2 + List.length blocks' + 0)%nat
-        by (cbn [List.length]; rewrite app_length; cbn [List.length]; rewrite app_length; cbn [List.length nones repeat]; lia).
-      exact DG.
+      exists HNEW. split; [reflexivity|]. split; [unfold HNEW; cbn [List.length]; lia|exact DGx].
   - (* a property could not be read: everything is released *)
     exists st. eexists (Build_crl _ _ _ _ _ _ _ _ _ _). do 4 eexists. split; [|split; [exact Pf|right]].
     + eexists. split; [exact BODY|]. unfold tl_ok.
@@ -685,7 +694,7 @@ Proof.
   destruct Out as [(-> & -> & (hnew & -> & Hn & D) & s1 & va & s2 & v & s3 & E1 & E2 & E3 & E4 & E5)|(Hn & -> & j & ->)].
   - left. split; [reflexivity|]. split; [reflexivity|]. split; [exists s1, va, s2, v, s3, s'; repeat split; assumption|].
     exists hnew. split; [reflexivity|]. split; [exact Hn|].
-    intros k2 s2'. destruct (bsE_sound _ _ _ _ (D k2 s2')) as (f1 & F1). exists f1. intros g Hg.
+    intros k2 s2'. pose proof (D h [] m' k2 s2' eq_refl (Z.le_refl _)) as D2. rewrite !app_nil_r in D2. destruct (bsE_sound _ _ _ _ D2) as (f1 & F1). exists f1. intros g Hg.
     eexists. split; [apply F1; exact Hg|]. split; reflexivity.
   - right. split; [exact Hn|]. split; [reflexivity|]. exists j. reflexivity.
 Qed.
